@@ -85,12 +85,20 @@ fn main() {
             writeln!(out, "ring RsaKeyPair::from_pkcs8: {:?}", r.map(|k| k.public_modulus_len())).unwrap();
         }
         "replay" => {
+            // ITV_EVERY=n: a thin slice - only every n-th scenario is run (the others are reported as skipped)
+            let every: u64 = std::env::var("ITV_EVERY").ok().and_then(|s| s.parse().ok()).unwrap_or(1).max(1);
             for (i, line) in std::io::stdin().lock().lines().enumerate() {
                 let line = line.unwrap();
                 if line.trim().is_empty() {
                     continue;
                 }
                 let scn: Value = serde_json::from_str(&line).expect("scenario json");
+                let idx = scn.get("i").and_then(|x| x.as_u64()).unwrap_or(i as u64);
+                // (shards are filled round-robin over 16 files: divide first, so that the slice is spread over all of them)
+                if every > 1 && (idx / 16) % every != 0 {
+                    writeln!(out, "{}", json!({"i": idx, "skip": "thinned"})).unwrap();
+                    continue;
+                }
                 let mut r = match common::guarded(|| dispatch(&mut st, &scn)) {
                     Ok(v) => v,
                     Err(msg) => json!({"harness_panic": msg}),
